@@ -345,7 +345,10 @@ def run_case(case, connect_only=False):
     phase = "connect"
     stuck = []
     try:
-        composition.connect(T(t0) if any(c["kind"] == "T" for c in case["comps"]) else None)
+        if case.get("autostart"):
+            composition.connect()       # the composition determines its start itself: the earliest component's time
+        else:
+            composition.connect(T(t0) if any(c["kind"] == "T" for c in case["comps"]) else None)
         n_connect_events = len(events)
         phase = "run"
         if not connect_only:
